@@ -13,6 +13,7 @@ import (
 func main() {
 	var o sym.RunOpts
 	flag.StringVar(&o.VerifDir, "verif", "/verif", "verification directory")
+	flag.StringVar(&o.OutDir, "out", "", "directory for evidence/, replays/, build/ (default: the verification directory)")
 	flag.StringVar(&o.RepoDir, "repo", "/repo", "repository")
 	flag.StringVar(&o.Tier, "tier", "quick", "quick|thorough")
 	flag.IntVar(&o.Jobs, "jobs", 16, "workers")
